@@ -234,26 +234,39 @@ def parseXsdDate (s0 : Str) : Option PyVal :=
   else if minus then none          -- fromisoformat("-" + …) never parses
   else pyDateFromIso s3
 
-/-- utcoffset part `Z | ±hh:mm` of the fragment; `none` = not of this shape,
-    `some none` = absent, `some (some μs)` -/
-def parseTzShape : Str → Option (Option (Bool × Nat × Nat))
+/-- fraction digits → microseconds, truncating (CPython ≥ 3.11) -/
+def fracToMicrosTrunc (fp : Str) : Nat := num ((fp ++ ['0', '0', '0', '0', '0', '0']).take 6)
+
+/-- raw utcoffset fields: negative?, hh, mm, ss, fraction digits -/
+abbrev TzRaw := Bool × Nat × Nat × Nat × Str
+
+/-- utcoffset part `Z | ±hh:mm[:ss[.f+]]` of the fragment; `none` = not of this shape,
+    `some none` = absent -/
+def parseTzShape : Str → Option (Option TzRaw)
   | [] => some none
-  | ['Z'] => some (some (false, 0, 0))
-  | [sg, a, b, ':', c, d] =>
-    if (sg == '+' || sg == '-') && allDigits [a, b, c, d] then some (some (sg == '-', num [a, b], num [c, d]))
+  | ['Z'] => some (some (false, 0, 0, 0, []))
+  | sg :: a :: b :: ':' :: c :: d :: r =>
+    if (sg == '+' || sg == '-') && allDigits [a, b, c, d] then
+      match r with
+      | [] => some (some (sg == '-', num [a, b], num [c, d], 0, []))
+      | ':' :: e :: f :: r' =>
+        if allDigits [e, f] then
+          match r' with
+          | [] => some (some (sg == '-', num [a, b], num [c, d], num [e, f], []))
+          | '.' :: fp => if !fp.isEmpty && allDigits fp then some (some (sg == '-', num [a, b], num [c, d], num [e, f], fp)) else none
+          | _ => none
+        else none
+      | _ => none
     else none
   | _ => none
 
-/-- CPython: the offset must be strictly inside ±24 h; hours/minutes are not range-checked one by one -/
-def tzOfShape : Option (Bool × Nat × Nat) → Option (Option Int)
+/-- CPython: the offset must be strictly inside ±24 h; its fields are not range-checked one by one -/
+def tzOfShape : Option TzRaw → Option (Option Int)
   | none => some none
-  | some (neg, hh, mm) =>
-    let secs := hh * 3600 + mm * 60
-    if secs < 86400 then some (some (if neg then -((secs : Int) * 1000000) else (secs : Int) * 1000000))
+  | some (neg, hh, mm, ss, fp) =>
+    let us := (hh * 3600 + mm * 60 + ss) * 1000000 + fracToMicrosTrunc fp
+    if us < 86400000000 then some (some (if neg then -(us : Int) else (us : Int)))
     else none
-
-/-- fraction digits → microseconds, truncating (CPython ≥ 3.11) -/
-def fracToMicrosTrunc (fp : Str) : Nat := num ((fp ++ ['0', '0', '0', '0', '0', '0']).take 6)
 
 /-- the part after `hh:mm:ss`: `[.f+][tz]` -/
 def splitFrac (r : Str) : Option (Str × Str) :=
@@ -264,7 +277,7 @@ def splitFrac (r : Str) : Option (Str × Str) :=
   | _ => some ([], r)
 
 /-- shape `hh:mm:ss[.f+][Z|±hh:mm]` → raw fields -/
-def timeShape (s : Str) : Option (Nat × Nat × Nat × Str × Option (Bool × Nat × Nat)) :=
+def timeShape (s : Str) : Option (Nat × Nat × Nat × Str × Option TzRaw) :=
   match s with
   | h1 :: h2 :: ':' :: m1 :: m2 :: ':' :: s1 :: s2 :: r =>
     if allDigits [h1, h2, m1, m2, s1, s2] then
@@ -378,8 +391,9 @@ structure DurRaw where
   s : Option NumTok
   deriving DecidableEq, Repr
 
-/-- `ISO8601_PERIOD_REGEX.match` -/
-def matchPeriod (s : Str) : Option DurRaw :=
+/-- `ISO8601_PERIOD_REGEX.match` (`$` also matches before one final newline) -/
+def matchPeriod (s0 : Str) : Option DurRaw :=
+  let s := if lastChar? s0 == some '\n' then dropLast s0 else s0
   let (neg, s1) :=
     match s with
     | '-' :: r => (true, r)
@@ -653,7 +667,10 @@ def pyLex (v : PyVal) (dt : Option Dt) : Option Str :=
   | .date y m d => some (dateIso y m d)
   | .time h mi s us tz => some (timeIso h mi s us tz)
   | .duration y m us => durationIso y m us true
-  | .timedelta us => durationIso 0 0 us false
+  | .timedelta us =>
+    -- specific rule (timedelta, yearMonthDuration): the zero duration is written P0M
+    if dt == some .yearMonthDuration && us == 0 then some ['P', '0', 'M']
+    else durationIso 0 0 us false
 
 /-! ## Literal -/
 
